@@ -54,6 +54,8 @@ def run(chk, tier):
                                                                                   "; not so at line %s where it is %s" % bad[0] if bad else ""))
         except AnalysisBroken as ex:
             chk.broke("R-FILTER: hwloc_linux_knl_numa_quirk not evaluable (%s)" % ex)
+    import uninit
+    uninit.wire(chk, P, ["topology-linux.c", "topology-x86.c", "pci-common.c", "topology-pci.c"], 30, 6)
     chk.rule("R-NULLELEM", "an array element that is tested for NULL somewhere in a function is not dereferenced unguarded elsewhere in it (missing files leave holes in node arrays)")
     ne = filt.null_elements(chk, P, ["topology-linux.c", "topology-x86.c"])
     chk.floor("R-NULLELEM", "tested-element dereferences", ne, 2)
